@@ -1,3 +1,4 @@
+import numpy as np
 from .. import geometry as geom
 from ..mesh.datatypes import *
 from ..utils import PriorityQueue
@@ -49,7 +50,7 @@ def shortest_path(mesh : Mesh, start : int, targets : list, weights = "length", 
         If export_path_mesh is set to True, also returns a Polyline
     """
 
-    if isinstance(targets, int):
+    if isinstance(targets, (int, np.integer)):
         targets = {targets}
     else:
         targets = set(targets)
